@@ -406,7 +406,7 @@ def get_csr_header(regions, constants, csr_base=None, with_csr_base_define=True,
     r += "\n"
     r += generated_separator("//", "CSR Registers/Fields Definition.")
     for name, region in regions.items():
-        origin = region.origin - _csr_base
+        origin = region.origin - csr_base
         r += _generate_csr_region_definitions_c(name, region, origin, alignment, csr_base, with_csr_base_define)
 
     # CSR Registers Access Functions.
@@ -420,7 +420,7 @@ def get_csr_header(regions, constants, csr_base=None, with_csr_base_define=True,
         r += "\n"
         r += "#if LITEX_CSR_ACCESS_FUNCTIONS\n"
         for name, region in regions.items():
-            origin = region.origin - _csr_base
+            origin = region.origin - csr_base
             r += _generate_csr_region_access_functions_c(name, region, origin, alignment, csr_base, with_csr_base_define)
         r += "#endif /* LITEX_CSR_ACCESS_FUNCTIONS */\n"
 
@@ -435,7 +435,7 @@ def get_csr_header(regions, constants, csr_base=None, with_csr_base_define=True,
         r += "\n"
         r += "#if LITEX_CSR_FIELDS_ACCESS_FUNCTIONS\n"
         for name, region in regions.items():
-            origin = region.origin - _csr_base
+            origin = region.origin - csr_base
             r += _generate_csr_fields_access_functions_c(name, region, origin, alignment, csr_base, with_csr_base_define)
         r += "#endif /* LITEX_CSR_FIELDS_ACCESS_FUNCTIONS */\n"
 
